@@ -595,7 +595,94 @@ def channel_lock_table():
     return sites, takes
 
 
-def lean_channel_table(sites, takes, handlers):
+def _attr_call(node, obj, meth):
+    """`self.<obj>.<meth>(...)`"""
+    return (isinstance(node, ast.Call) and isinstance(node.func, ast.Attribute) and node.func.attr == meth
+            and isinstance(node.func.value, ast.Attribute) and node.func.value.attr == obj
+            and isinstance(node.func.value.value, ast.Name) and node.func.value.value.id == "self")
+
+
+def send_gate_facts():
+    """From the AST of Transport._send_user_message and _send_kex_init:
+      rechecks_under_lock — every way out of the wait loop towards `_send_message` passes an
+        `if self.clear_to_send.is_set():` test evaluated while `clear_to_send_lock` is held (acquired earlier in the same
+        block without a release in between, or inside `with self.clear_to_send_lock`), and `_send_message` is called;
+      clears_before_write — in `_send_kex_init`, `clear_to_send.clear()` happens while the lock is held and before the
+        `_send_message` call that writes KEXINIT."""
+    import paramiko.transport as T
+
+    tree = ast.parse(textwrap.dedent(inspect.getsource(T.Transport._send_user_message)))
+    fn = tree.body[0]
+    facts = {"guarded_breaks": 0, "unguarded_breaks": 0, "send_calls": 0, "send_under_lock": 0}
+
+    def walk(stmts, held, guarded):
+        for st in stmts:
+            if isinstance(st, ast.Expr) and _attr_call(st.value, "clear_to_send_lock", "acquire"):
+                held = True
+                continue
+            if isinstance(st, ast.Expr) and _attr_call(st.value, "clear_to_send_lock", "release"):
+                held = False
+                guarded = False
+                continue
+            if isinstance(st, ast.Break):
+                facts["guarded_breaks" if guarded else "unguarded_breaks"] += 1
+                continue
+            for n in ast.walk(st) if not isinstance(st, (ast.If, ast.While, ast.With, ast.Try, ast.For)) else []:
+                if isinstance(n, ast.Call) and isinstance(n.func, ast.Attribute) and n.func.attr == "_send_message":
+                    facts["send_calls"] += 1
+                    facts["send_under_lock"] += 1 if held else 0
+            if isinstance(st, ast.If):
+                is_test = _attr_call(st.test, "clear_to_send", "is_set")
+                walk(st.body, held, guarded or (is_test and held))
+                walk(st.orelse, held, guarded)
+            elif isinstance(st, ast.While) or isinstance(st, ast.For):
+                walk(st.body, held, False)
+                # what holds after the loop: a guarded break leaves the lock held
+                if facts["guarded_breaks"] and not facts["unguarded_breaks"]:
+                    held = True
+                walk(st.orelse, held, guarded)
+            elif isinstance(st, ast.With):
+                h2 = held or any(isinstance(i.context_expr, ast.Attribute) and i.context_expr.attr == "clear_to_send_lock"
+                                 for i in st.items)
+                walk(st.body, h2, guarded)
+            elif isinstance(st, ast.Try):
+                walk(st.body, held, guarded)
+                for h in st.handlers:
+                    walk(h.body, held, guarded)
+                walk(st.finalbody, held, guarded)
+
+    walk(fn.body, False, False)
+    rechecks = (facts["guarded_breaks"] >= 1 and facts["unguarded_breaks"] == 0 and facts["send_calls"] >= 1
+                and facts["send_under_lock"] == facts["send_calls"])
+
+    tree2 = ast.parse(textwrap.dedent(inspect.getsource(T.Transport._send_kex_init)))
+    order = []           # ("acquire"|"clear"|"release"|"send", lineno) in source order
+
+    for n in ast.walk(tree2):
+        if _attr_call(n, "clear_to_send_lock", "acquire"):
+            order.append((n.lineno, "acquire"))
+        elif _attr_call(n, "clear_to_send_lock", "release"):
+            order.append((n.lineno, "release"))
+        elif _attr_call(n, "clear_to_send", "clear"):
+            order.append((n.lineno, "clear"))
+        elif isinstance(n, ast.Call) and isinstance(n.func, ast.Attribute) and n.func.attr == "_send_message":
+            order.append((n.lineno, "send"))
+        elif isinstance(n, ast.With) and any(isinstance(i.context_expr, ast.Attribute)
+                                             and i.context_expr.attr == "clear_to_send_lock" for i in n.items):
+            order.append((n.lineno, "acquire"))
+            order.append((max(x.lineno for x in ast.walk(n) if hasattr(x, "lineno")) + 0.5, "release"))
+    order.sort()
+    kinds = [k for _l, k in order]
+    clears = False
+    if "clear" in kinds and "send" in kinds and "acquire" in kinds:
+        ci, si = kinds.index("clear"), kinds.index("send")
+        ai = kinds.index("acquire")
+        ri = kinds.index("release") if "release" in kinds else len(kinds)
+        clears = ai < ci < ri and ci < si
+    return {"rechecks_under_lock": bool(rechecks), "clears_before_write": bool(clears), "detail": facts}
+
+
+def lean_channel_table(sites, takes, handlers, gate):
     rows = ",\n".join('    ⟨"%s", %d, %s, %s⟩' % (s["func"], s["line"], "true" if s["under_lock"] else "false",
                                                   "true" if s["func"] in handlers else "false") for s in sites)
     hrows = ", ".join('("%s", %s)' % (h, "true" if takes.get(h) else "false") for h in sorted(handlers))
@@ -610,7 +697,13 @@ def lean_channel_table(sites, takes, handlers):
         "def sites : List Site := [\n%s ]\n\n"
         "/-- transport-thread channel handlers and whether they (or a method they call) take Channel.lock -/\n"
         "def handlers : List (String × Bool) := [%s]\n\n"
-        "end PV.Generated.C11\n" % (rows, hrows)
+        "/-- Transport._send_user_message: the `_send_message` call is reached only through an `is_set()` test made while\n"
+        "clear_to_send_lock is held -/\n"
+        "def sendRechecksUnderLock : Bool := %s\n\n"
+        "/-- Transport._send_kex_init: clear_to_send is cleared under the lock before KEXINIT is written -/\n"
+        "def kexInitClearsBeforeWrite : Bool := %s\n\n"
+        "end PV.Generated.C11\n" % (rows, hrows, "true" if gate["rechecks_under_lock"] else "false",
+                                      "true" if gate["clears_before_write"] else "false")
     )
 
 
@@ -619,5 +712,7 @@ def write_generated_c11(ctx):
 
     sites, takes = channel_lock_table()
     handlers = {f.__name__ for f in Transport._channel_handler_table.values()}
-    ctx.write_generated("C11", lean_channel_table(sites, takes, handlers))
+    gate = send_gate_facts()
+    ctx.extra["send_gate_facts"] = gate
+    ctx.write_generated("C11", lean_channel_table(sites, takes, handlers, gate))
     return sites, takes, handlers
